@@ -182,6 +182,11 @@ def run(prog, rep, tier, repo):
             base = s.target[1]
             if tag(base) == 'call' and base[1].endswith('Vector::zeros'):
                 alias[base] = 'u'
+        if not alias:
+            # the velocity buffer is written through iterator items only: it is the one zero-initialised Vector of the body
+            zs = {z for c_ in f.calls() for a_ in c_.args for z in subterms(a_) if tag(z) == 'call' and z[1].endswith('Vector::zeros')}
+            if len(zs) == 1:
+                alias[next(iter(zs))] = 'u'
         gl = [s.target for s in f.stores() if tag(s.target) == 'local' and s.target[2] == 'grad']
         if gl:
             alias[gl[0]] = 'g'
@@ -368,6 +373,7 @@ def _early_stop(prog, rep, f, name):
         """max(rel_diff(..)) < tiny constant"""
         if tag(cn) != 'bin' or cn[1] not in ('Lt', 'Le'):
             return False
+        cn = prog.inline(cn, only=lambda p_: p_.startswith('optimize::'))       # the measure may live in a private helper of the optimiser
         a, b = cn[2], cn[3]
         if not (tag(b) == 'const' and isinstance(b[2], float) and 0 < b[2] < 1e-10 and mentions_rel_diff(a)):
             return False
